@@ -62,6 +62,16 @@ func newWorld(r *rand.Rand, o worldOpts) *World {
 	all := gen.Names(r, nrec+nbas+nunk, o.Names)
 	w := &World{Exact: o.Exact, Layout: o.Layout}
 	w.Recipes, w.Basics, w.Unknown = all[:nrec], all[nrec:nrec+nbas], all[nrec+nbas:]
+	if r.Intn(4) == 0 {
+		// names that differ only in letter case are different names: an undefined food spelled like a
+		// recipe, a basic element spelled like another one
+		if v := caseVariant(w.Recipes[0]); v != w.Recipes[0] {
+			w.Unknown = append(w.Unknown, v)
+		}
+		if v := caseVariant(w.Basics[0]); v != w.Basics[0] && nbas > 1 {
+			w.Basics[nbas-1] = v
+		}
+	}
 	w.Book = gen.RandomBook(r, gen.BookOpts{Recipes: nrec, Basics: nbas, MaxDepth: 1 + r.Intn(4), Exact: o.Exact, RecipeNames: w.Recipes, BasicNames: w.Basics, NoEmpty: o.NoEmpty, NoZero: o.NoZero})
 	foods := append(append(append([]string{}, w.Recipes...), w.Recipes...), w.Basics...)
 	foods = append(foods, w.Unknown...)
@@ -84,6 +94,20 @@ func newWorld(r *rand.Rand, o worldOpts) *World {
 	w.BookText = gen.RenderBook(w.Book, st)
 	w.LogText = gen.RenderLog(w.Log, o.Layout, st)
 	return w
+}
+
+// caseVariant flips the case of the ASCII letters of a name (identity if it has none).
+func caseVariant(s string) string {
+	b := []byte(s)
+	for i, ch := range b {
+		switch {
+		case ch >= 'a' && ch <= 'z':
+			b[i] = ch - 32
+		case ch >= 'A' && ch <= 'Z':
+			b[i] = ch + 32
+		}
+	}
+	return string(b)
 }
 
 func (w *World) Files() map[string]string {
